@@ -274,7 +274,10 @@ CLAIMED = {
             "echo and 'not onboarded' (as reported in that run), the operator had said yes, and the PIN sent is "
             "policy-compliant (onboard_destructive_only_after_checks); if do_unlock sends any PIN-bearing message "
             "then the checks had handed over with bootloader mode, onboarded and a matching echo "
-            "(unlock_pin_only_after_checks); the model's PIN policy is the property's (8 alphanumerics with a "
+            "(unlock_pin_only_after_checks); if do_changepin sends the change-PIN command (CHANGE_PIN / SGX "
+            "change-password) at any point, it does so for a PIN that satisfies the policy - relaxed only when "
+            "any-PIN was allowed - and nothing before the new-PIN step, the unlock included, sends it "
+            "(changepin_only_policy_pin); the model's PIN policy is the property's (8 alphanumerics with a "
             "letter; alphanumerics only when any-PIN is allowed); a policy-violating PIN given to onboard stops "
             "it before the device is contacted; the confirmation loop proceeds only on an explicit yes. The models of do_onboard (up to "
             "the device being onboarded), do_unlock, do_changepin and do_get_pubkeys with both dongle classes are "
@@ -289,7 +292,7 @@ CLAIMED = {
             "the six documented paths (Spec.C18.filesOk).",
             "'when the preconditions hold the operation is carried out' is a theorem for onboarding on a Ledger "
             "(onboard_carried_out: exact message sequence - the random source's 32 seed bytes, the length-prefixed "
-            "PIN, the wipe - and a normal end); for unlock / change-PIN / public keys, the change-PIN preconditions "
+            "PIN, the wipe - and a normal end); for unlock / change-PIN / public keys, the change-PIN mode preconditions "
             "and the public-key output it is decided by the exhaustive grid (correspondence + oracle); seed "
             "freshness (that os.urandom is random) is not a theorem"),
     "C19": ("Lean theorems about ledgerblue's Intel-HEX parser as used by compute_app_hash: for every file the "
